@@ -65,6 +65,34 @@ func freshTypeName(prefix string) string {
 
 func hx(s string) string { return hex.EncodeToString([]byte(s)) }
 
+// WeakenEnums is a copy of the type tree under fresh names in which every enum has become a plain String: a
+// different schema whose inferred Go types are the same ones and whose type-level values include every value of t.
+func WeakenEnums(t *SType) *SType {
+	if t == nil {
+		return nil
+	}
+	c := *t
+	c.Name = freshTypeName("W")
+	if t.K == "enum" {
+		return &SType{K: "str", Name: c.Name}
+	}
+	c.Elem = WeakenEnums(t.Elem)
+	c.Fields = nil
+	for _, f := range t.Fields {
+		f.T = WeakenEnums(f.T)
+		c.Fields = append(c.Fields, f)
+	}
+	c.Members = nil
+	for _, m := range t.Members {
+		m.T = WeakenEnums(m.T)
+		if t.URepr == "kinded" {
+			m.Disc = m.T.Name
+		}
+		c.Members = append(c.Members, m)
+	}
+	return &c
+}
+
 func (t *SType) writeTokens(sb *strings.Builder) {
 	switch t.K {
 	case "list", "map":
